@@ -213,8 +213,8 @@ def run(tier, seed):
     d1 = [x for x in wr if x[1] != "rand"]
     rnd = [x for x in wr if x[1] == "rand"]
     rng.shuffle(d1)
-    insts += [(strip_work(t), "wrapper") for t, _ in d1[:(230 if quick else 4000)]]
-    insts += [(strip_work(t), "nested") for t, _ in rnd[:(120 if quick else 3000)]]
+    insts += [(strip_work(t), "wrapper") for t, _ in d1[:(230 if quick else 3000)]]
+    insts += [(strip_work(t), "nested") for t, _ in rnd[:(120 if quick else 2000)]]
     return _run(insts, tier, rng, full=True)
 
 
